@@ -267,6 +267,19 @@ func (w *world) poolReap(limit int, what string) []*poolTx {
 		}
 		lastNonce[ptx.acct] = ptx.nonce
 	}
+	if limit == reapAll {
+		// an uncut list shows everything the pending queue holds: the queue has a configured bound
+		n := 0
+		for _, p := range out {
+			if !p.ext {
+				n++
+			}
+		}
+		w.out.Evals["C19.pending-bound"]++
+		if n > pm.pendLimit {
+			w.viol("C19", "pending-exceeds-bound", what, "the pending queue offers %d transactions, its configured bound is %d", n, pm.pendLimit)
+		}
+	}
 	sort.SliceStable(out, func(i, j int) bool {
 		a, b := out[i], out[j]
 		if a.ext != b.ext {
@@ -426,15 +439,19 @@ func generatePool(r *simrt.Rand, cfg config) simrt.Case {
 	var acts []simrt.Action
 	n := 0
 	steps := 20 + r.Intn(60)
-	heavy := r.Chance(1, 4) // one account floods the pool up to its bounds
+	heavy := r.Chance(1, 3) // a few accounts flood the pool up to its bounds
+	if heavy {
+		steps += 40
+	}
 	for i := 0; i < steps; i++ {
 		switch r.Pick([]int{60, 8, 10, 6, 5, 2, 2}) {
 		case 0:
 			kinds := []string{"next", "next", "next", "gap", "stale", "compete", "dup", "ext", "garbage"}
 			k := kinds[r.Intn(len(kinds))]
 			acct := r.Intn(cfg.Accounts)
-			if heavy && r.Chance(2, 3) {
-				acct, k = 0, []string{"next", "next", "gap"}[r.Intn(3)]
+			if heavy && r.Chance(3, 4) {
+				// two or three accounts flood the pool: runs of consecutive nonces, some of them behind a gap that is filled later
+				acct, k = r.Intn(min(3, cfg.Accounts)), []string{"next", "next", "next", "gap"}[r.Intn(4)]
 			}
 			acts = append(acts, simrt.Action{K: "submit", S: k, N: acct, A: int64(r.Intn(1 << 16)), B: int64(r.Intn(200)), C: int64(n)})
 			n++
